@@ -203,6 +203,14 @@ Section FkOpen.
     destruct acc; try apply fk_raise; destruct b; try apply fk_raise. apply IH.
   Qed.
 
+  Lemma fk_divide : forall r acc, fk (divide acc r).
+  Proof.
+    induction r as [|b r IH]; simpl; intros acc; [apply fk_ret|].
+    destruct acc; try apply fk_raise. destruct b; try apply fk_raise.
+    destruct (_ =? 0); [apply fk_raise|]. destruct (_ =? 0); [apply IH|].
+    destruct (flt_of_f64 _); [apply IH|apply fk_raise].
+  Qed.
+
   Lemma fk_compare_prim : forall test args, fk (compare_prim test args).
   Proof.
     intros test args. unfold compare_prim.
@@ -238,7 +246,7 @@ Section FkOpen.
   Ltac fk_auto :=
     repeat first
       [ apply fk_ret | apply fk_raise | apply fk_alloc_arr | apply fk_aset_write
-      | apply fk_compare_prim | apply fk_arith | apply Hap | apply fk_map_pairs | apply fk_cat_arrs
+      | apply fk_compare_prim | apply fk_arith | apply fk_divide | apply Hap | apply fk_map_pairs | apply fk_cat_arrs
       | apply fk_bind; [first [apply fk_get_arr | apply fk_map_arr | apply fk_cat_arrs]|intros ?]
       | match goal with |- fk (match ?x with _ => _ end) => destruct x end
       | match goal with |- fk (if ?x then _ else _) => destruct x end ].
